@@ -329,7 +329,11 @@ class Spec:
                     settle(st)
                     self.render_transparent(cfg, st, op, ctx, hist)
                 return ok
-            return self._apply(cfg, st, op, ctx, hist)
+            ok = self._apply(cfg, st, op, ctx, hist)
+            if ok and op[0] == "key" and op[1] in ("k", "j") and not ctx.muted:
+                settle(st)
+                self.same_as_arrow(cfg, st, op, ctx, hist)
+            return ok
         finally:
             settle(st)
             if st.assigned is not None and not ctx.muted:
@@ -341,6 +345,25 @@ class Spec:
                 if now != p:
                     ctx.violation("focus-assign", f"C08/focus-assign/{cn}/reverted-by-render", {"fixture": FIXTURES[cfg][0], "hist": hist + (op,)},
                                   f"{cn}.focus_position = {p!r} was accepted, but after the next render it reads {now!r}")
+
+    def same_as_arrow(self, cfg, st, op, ctx, hist):
+        """a key bound to 'cursor up' / 'cursor down' by a plain string in the command map does what the arrow key does"""
+        arrow = "up" if op[1] == "k" else "down"
+        got = canon(st.root)
+        muted = ctx.muted
+        ctx.muted = True
+        try:
+            tw = self.build(cfg)
+            for i, h in enumerate(hist):
+                self.apply(cfg, tw, h, ctx, hist[:i])
+            self._apply(cfg, tw, ("key", arrow), ctx, hist)
+            settle(tw)
+            want = canon(tw.root)
+        finally:
+            ctx.muted = muted
+        if got != want:
+            ctx.violation("command-map", f"C08/command-map/{FIXTURES[cfg][0]}/{op[1]}", {"fixture": FIXTURES[cfg][0], "hist": hist + (op,)},
+                          f"{op[1]!r} is bound to 'cursor {arrow}' but leaves the focus state {got}; {arrow!r} leaves {want}")
 
     def render_transparent(self, cfg, st, op, ctx, hist):
         """the same two inputs with the main loop's render in between must lead to the same focus state"""
